@@ -411,13 +411,19 @@ func (rp *ResourcePool) scaleOutResources() (resourceWrapper, bool) {
 
 // 扩容并获取连接, 外层加锁了，所以这边不加锁
 func (rp *ResourcePool) AddCapacityResource() (resourceWrapper, bool) {
-	verifStep(rp, "g4")
-	capacity := int(rp.capacity.Get())
-	if capacity < 0 || capacity >= int(rp.maxCapacity.Get()) {
-		return resourceWrapper{}, false
+	// The test and the increment must be one atomic step with respect to ScaleCapacity's
+	// CompareAndSwap, and a closed (or closing) pool has capacity 0 and must not be reopened.
+	for {
+		verifStep(rp, "g4")
+		capacity := rp.capacity.Get()
+		if capacity <= 0 || capacity >= rp.maxCapacity.Get() {
+			return resourceWrapper{}, false
+		}
+		verifStep(rp, "g5")
+		if rp.capacity.CompareAndSwap(capacity, capacity+1) {
+			break
+		}
 	}
-	verifStep(rp, "g5")
-	rp.capacity.Add(1)
 	verifStep(rp, "g6")
 	rp.available.Add(1)
 	return resourceWrapper{}, true
